@@ -14,6 +14,8 @@ structure Decor.Ok (d : Decor) (t : TableSpec) : Prop where
   ruleNos_len : d.ruleNos.length = t.rules.length
   ruleNos : ∀ i (h : i < d.ruleNos.length), parseUsize (trim d.ruleNos[i]) = some (i + 1)
   blanks : d.split = true → d.annBlanks.length = t.annotations.length
+  inBlanks : ∀ b ∈ d.inBlanks, (trim b).isEmpty = true
+  outBlanks : ∀ b ∈ d.outBlanks, (trim b).isEmpty = true
 
 /-! ## Generic list facts -/
 
@@ -50,15 +52,15 @@ theorem mem_zipWith_cons : ∀ {A : List Cell} {B : List (List Cell)} {row : Lis
 
 /-! ## The numbering loop -/
 
-theorem scanNumbers_regs (site : Site) (f : Nat → Nat) : ∀ (ts : List Text) (s mx : Nat),
+theorem scanNumbers_regs (f : Nat → Nat) : ∀ (ts : List Text) (s mx : Nat),
     (∀ i (h : i < ts.length), parseUsize (trim ts[i]) = some (mx + i + 1)) →
-    scanNumbers site ((regsFrom f s ts).map some) mx =
+    scanNumbers ((regsFrom f s ts).map some) mx =
       ok (if mx + ts.length > 0 then some (mx + ts.length) else none)
   | [], _, mx, _ => by simp [regsFrom, scanNumbers]
   | x :: ts, s, mx, h => by
     have h0 := h 0 (by simp)
     simp only [List.getElem_cons_zero, Nat.add_zero] at h0
-    have ih := scanNumbers_regs site f ts (s + 1) (mx + 1) (fun i hi => by
+    have ih := scanNumbers_regs f ts (s + 1) (mx + 1) (fun i hi => by
       have := h (i + 1) (by simp; omega)
       simp only [List.getElem_cons_succ] at this
       rw [this]; congr 1; omega)
@@ -68,9 +70,9 @@ theorem scanNumbers_regs (site : Site) (f : Nat → Nat) : ∀ (ts : List Text) 
     rw [this]
 
 theorem scanNumbers_ruleNos {d : Decor} {t : TableSpec} (hd : d.Ok t) (hr : 0 < t.rules.length)
-    (site : Site) (f : Nat → Nat) :
-    scanNumbers site ((regsFrom f 0 d.ruleNos).map some) 0 = ok (some t.rules.length) := by
-  rw [scanNumbers_regs site f d.ruleNos 0 0 (fun i hi => by rw [hd.ruleNos i hi]; simp)]
+    (f : Nat → Nat) :
+    scanNumbers ((regsFrom f 0 d.ruleNos).map some) 0 = ok (some t.rules.length) := by
+  rw [scanNumbers_regs f d.ruleNos 0 0 (fun i hi => by rw [hd.ruleNos i hi]; simp)]
   have := hd.ruleNos_len
   simp [this, hr]
 
@@ -102,6 +104,31 @@ theorem skipToVOut_skip : ∀ (A : List Cell) (N : List Cell), (∀ c ∈ A, c.i
     have ha : a.isVOut = false := h a (by simp)
     simp only [List.cons_append, skipToVOut, ha, Bool.false_eq_true, if_false]
     exact skipToVOut_skip A N (fun c hc => h c (by simp [hc]))
+
+/-- a hit policy marker is not a number -/
+theorem marker_not_number {x : Text} {h : HitPolicy} (hx : hitPolicyOfText x = some h) :
+    parseUsize (trim x) = none := by
+  unfold hitPolicyOfText at hx
+  split at hx <;> first | (rename_i heq; rw [heq]; decide) | cases hx
+
+/-- The numbering loop over cells that end with a cell that is not a number never finds rule
+numbers: it stops with "not present" or with an invalid rule number. -/
+theorem scanNumbers_stops : ∀ (cells : List (Option Cell)) (mx n : Nat) (x : Text)
+    (rest : List (Option Cell)), (∀ c ∈ cells, c ≠ none) → parseUsize (trim x) = none →
+    scanNumbers (cells ++ some (.region n x) :: rest) mx = ok none ∨
+      ∃ e, scanNumbers (cells ++ some (.region n x) :: rest) mx = error e
+  | [], mx, n, x, rest, _, hx => by simp [scanNumbers, hx]
+  | none :: _, _, _, _, _, h, _ => absurd rfl (h none (by simp))
+  | some c :: cells, mx, n, x, rest, h, hx => by
+    cases c with
+    | region k t =>
+      simp only [List.cons_append, scanNumbers]
+      split
+      · split
+        · exact Or.inr ⟨_, rfl⟩
+        · exact scanNumbers_stops cells _ n x rest (fun c hc => h c (by simp [hc])) hx
+      · exact Or.inl rfl
+    | _ => simp [scanNumbers]
 
 /-! ## The hit policy lane -/
 
@@ -214,11 +241,6 @@ theorem planeRows_first : ∃ x y, planeRows ids d t = (Cell.region ids.hp d.hp 
   rw [htl, hb]
   exact ⟨_, _, rfl⟩
 
-include hd in
-theorem rows_hp : recognizeHitPolicyPlacement ⟨nm, planeRows ids d t⟩ = ok (.topLeft t.hitPolicy) := by
-  obtain ⟨x, y, h⟩ := planeRows_first ids d t
-  simp [recognizeHitPolicyPlacement, h, hpOfCell, hd.hp]
-
 include hw hd in
 theorem rows_rn :
     recognizeRuleNumbersPlacement ⟨nm, planeRows ids d t⟩ = ok (.leftBelow t.rules.length) := by
@@ -235,10 +257,20 @@ theorem rows_rn :
       (entryRowsFrom ids t.annotations.length 0 t.rules)).map (·.head?) =
       (regsFrom ids.ruleNo 0 d.ruleNos).map some :=
     map_head?_zipWith _ _ (by simp [hd.ruleNos_len])
+  obtain ⟨x, y, hf⟩ := planeRows_first ids d t
+  have hne : (planeRows ids d t).isEmpty = false := by rw [hf]; rfl
   have h1 : recognizeHorizontalRuleNumbers ⟨nm, planeRows ids d t⟩ = ok (.leftBelow t.rules.length) := by
-    simp only [recognizeHorizontalRuleNumbers, hskip, hheads,
-      scanNumbers_ruleNos hd hw.rules_pos .horzRuleIndex ids.ruleNo]
+    simp only [recognizeHorizontalRuleNumbers, hne, Bool.false_eq_true, if_false, hskip, hheads,
+      scanNumbers_ruleNos hd hw.rules_pos ids.ruleNo]
   simp only [recognizeRuleNumbersPlacement, h1]
+
+include hw hd in
+theorem rows_hp : recognizeHitPolicyPlacement ⟨nm, planeRows ids d t⟩ = ok (.topLeft t.hitPolicy) := by
+  obtain ⟨x, y, h⟩ := planeRows_first ids d t
+  have hrn := rows_rn ids d t nm hw hd
+  unfold recognizeHitPolicyPlacement
+  rw [hrn]
+  simp [h, hpOfCell, hd.hp]
 
 theorem rows_no_vertX : (⟨nm, planeRows ids d t⟩ : Plane).verticalDoubleCrossing = none := by
   unfold Plane.verticalDoubleCrossing
@@ -258,7 +290,7 @@ theorem rows_no_vertX : (⟨nm, planeRows ids d t⟩ : Plane).verticalDoubleCros
 include hw hd in
 theorem rows_orientation :
     recognizeOrientation ⟨nm, planeRows ids d t⟩ = ok ⟨t.hitPolicy, .ruleAsRow, t.rules.length⟩ := by
-  simp only [recognizeOrientation, rows_hp ids d t nm hd, rows_rn ids d t nm hw hd,
+  simp only [recognizeOrientation, rows_hp ids d t nm hw hd, rows_rn ids d t nm hw hd,
     rows_no_vertX ids d t nm]
   cases (Plane.horizontalDoubleCrossing ⟨nm, planeRows ids d t⟩).isSome <;> simp
 
@@ -270,7 +302,7 @@ theorem recognizePlane_rows (ho : t.orientation = .ruleAsRow) (hnm : nm = t.info
   have h1 := rows_orientation ids d t t.infoName hw hd
   have h2 := planeRows_drop ids d t t.infoName hd
   have h3 := horz_bodyH ids d t t.infoName hw hids
-  have h4 := buildTable_horzOf t hw ⟨t.infoName, bodyH ids d t⟩
+  have h4 := buildTable_horzOf d t hw hd.inBlanks hd.outBlanks ⟨t.infoName, bodyH ids d t⟩
   rw [ho] at h4
   simp only [recognizePlane, recognizeComponents, h1, Outcome.ok_bind, h2, h3]
   exact h4
@@ -412,19 +444,15 @@ theorem planeCols_last : (planeCols ids d t).getLast? =
     some (hpLane ids d t ++ Cell.vOut :: regsFrom ids.ruleNo 0 d.ruleNos) := by
   simp [planeCols]
 
-include hw hd in
-theorem cols_hp (hexpr : hitPolicyOfText (t.exprs.headD []) = none) :
-    recognizeHitPolicyPlacement ⟨nm, planeCols ids d t⟩ = ok (.bottomLeft t.hitPolicy) := by
-  obtain ⟨x, y, h⟩ := planeCols_first ids d t hw
-  obtain ⟨tl, htl⟩ := hpLane_eq ids d t
-  have hlast := planeCols_last ids d t
-  rw [h, htl] at hlast
-  simp only [recognizeHitPolicyPlacement, h, hpOfCell, hexpr, hlast, List.cons_append, hd.hp]
+theorem trPure_rows_nonempty : ∀ (w : Nat) (rows : List (List Cell)), rows ≠ [] →
+    ∀ row ∈ trPure w rows, row ≠ [] := by
+  intro w rows hne row hr h
+  have := rectangular_trPure w rows row hr
+  rw [h] at this
+  exact hne (List.eq_nil_of_length_eq_zero this.symm)
 
 include hw hd in
-theorem cols_rn
-    (hlane : parseUsize (trim (if t.outputs.length = 1 ∨ t.hasLabelRow = true then t.labelText
-      else t.names.headD [])) = none) :
+theorem cols_rn :
     recognizeRuleNumbersPlacement ⟨nm, planeCols ids d t⟩ = ok (.rightAfter t.rules.length) := by
   obtain ⟨X, rest, hX, hb, n0, hX0⟩ := bodyH_row0 ids d t hw.outputs_pos
   have hwd : t.inputs.length + 1 + 1 ≤ bodyWidth t := by
@@ -450,27 +478,35 @@ theorem cols_rn
       rw [length_regsFrom, len_exprs] at this
       rw [this] at h
       exact ⟨cs, h⟩
-  have hnext : ∃ n cs tl, (planeCols ids d t).drop (t.inputs.length + 1) =
-      (Cell.region n (if t.outputs.length = 1 ∨ t.hasLabelRow = true then t.labelText
-        else t.names.headD []) :: cs) :: tl := by
-    obtain ⟨cs, h⟩ := hrow (t.inputs.length + 1) (by omega)
-    have hXpos : 0 < X.length := by rw [hX]; exact hw.outputs_pos
-    have := mkRow_out t.annotations.length (regsFrom ids.expr 0 t.exprs) X
-      (regsFrom ids.ann 0 t.annotations) 0 hXpos
-    rw [length_regsFrom, len_exprs] at this
-    simp only [Nat.add_zero] at this
-    rw [this, hX0] at h
-    have hlt : t.inputs.length + 1 < (planeCols ids d t).length := by
-      simp [planeCols]; omega
-    rw [List.drop_eq_getElem_cons hlt]
-    have := List.getElem?_eq_getElem hlt
-    rw [h] at this
-    simp only [Option.getD_some, pivotCell, Option.some.injEq] at this
-    exact ⟨n0, cs, _, by rw [← this]⟩
-  obtain ⟨n, cs, tl, hnext⟩ := hnext
-  have h1 : recognizeHorizontalRuleNumbers ⟨nm, planeCols ids d t⟩ = ok .notPresent := by
-    simp only [recognizeHorizontalRuleNumbers, hskip, hnext, List.map_cons, List.head?_cons,
-      scanNumbers, hlane]
+  -- the first column below the double line ends with the hit policy cell
+  obtain ⟨tl, htl⟩ := hpLane_eq ids d t
+  have hbne : bodyH ids d t ≠ [] := by rw [hb]; simp
+  have hdrop : (planeCols ids d t).drop (t.inputs.length + 1) =
+      (trPure (bodyWidth t) (bodyH ids d t)).drop (t.inputs.length + 1) ++
+        [Cell.region ids.hp d.hp :: (tl ++ Cell.vOut :: regsFrom ids.ruleNo 0 d.ruleNos)] := by
+    unfold planeCols
+    rw [List.drop_append_of_le_length (by simp; omega), htl]
+    rfl
+  have hheads : ((planeCols ids d t).drop (t.inputs.length + 1)).map (·.head?) =
+      ((trPure (bodyWidth t) (bodyH ids d t)).drop (t.inputs.length + 1)).map (·.head?) ++
+        some (Cell.region ids.hp d.hp) :: [] := by
+    rw [hdrop]; simp
+  have hsome : ∀ c ∈ ((trPure (bodyWidth t) (bodyH ids d t)).drop (t.inputs.length + 1)).map (·.head?),
+      c ≠ none := by
+    intro c hc
+    simp only [List.mem_map] at hc
+    obtain ⟨row, hrow', rfl⟩ := hc
+    have := trPure_rows_nonempty _ _ hbne row (List.mem_of_mem_drop hrow')
+    cases row with
+    | nil => exact absurd rfl this
+    | cons a as => simp
+  have hne : (planeCols ids d t).isEmpty = false := by simp [planeCols]
+  have h1 : recognizeHorizontalRuleNumbers ⟨nm, planeCols ids d t⟩ = ok .notPresent ∨
+      ∃ e, recognizeHorizontalRuleNumbers ⟨nm, planeCols ids d t⟩ = error e := by
+    simp only [recognizeHorizontalRuleNumbers, hne, Bool.false_eq_true, if_false, hskip, hheads]
+    rcases scanNumbers_stops _ 0 ids.hp d.hp [] hsome (marker_not_number hd.hp) with h | ⟨e, h⟩
+    · left; rw [h]
+    · right; exact ⟨e, by rw [h]⟩
   have h2 : recognizeVerticalRuleNumbers ⟨nm, planeCols ids d t⟩ = ok (.rightAfter t.rules.length) := by
     have hsk : skipToVOut (hpLane ids d t ++ Cell.vOut :: regsFrom ids.ruleNo 0 d.ruleNos) =
         ok (regsFrom ids.ruleNo 0 d.ruleNos) := by
@@ -479,8 +515,23 @@ theorem cols_rn
       obtain ⟨n, x, rfl⟩ := hpLane_regions ids d t c hc
       rfl
     simp only [recognizeVerticalRuleNumbers, planeCols_last, hsk,
-      scanNumbers_ruleNos hd hw.rules_pos .vertSkipIndex ids.ruleNo]
-  simp only [recognizeRuleNumbersPlacement, h1, h2]
+      scanNumbers_ruleNos hd hw.rules_pos ids.ruleNo]
+  rcases h1 with h1 | ⟨e, h1⟩
+  · simp only [recognizeRuleNumbersPlacement, h1, h2]
+  · simp only [recognizeRuleNumbersPlacement, h1, h2]
+
+include hw hd in
+theorem cols_hp :
+    recognizeHitPolicyPlacement ⟨nm, planeCols ids d t⟩ = ok (.bottomLeft t.hitPolicy) := by
+  obtain ⟨x, y, h⟩ := planeCols_first ids d t hw
+  obtain ⟨tl, htl⟩ := hpLane_eq ids d t
+  have hlast := planeCols_last ids d t
+  rw [h, htl] at hlast
+  have hrn := cols_rn ids d t nm hw hd
+  unfold recognizeHitPolicyPlacement
+  rw [hrn]
+  simp only [h, if_true, hlast]
+  simp [hpOfCell, hd.hp]
 
 theorem cols_no_horzX : (⟨nm, planeCols ids d t⟩ : Plane).horizontalDoubleCrossing = none := by
   unfold Plane.horizontalDoubleCrossing
@@ -502,12 +553,10 @@ theorem cols_no_horzX : (⟨nm, planeCols ids d t⟩ : Plane).horizontalDoubleCr
     · obtain ⟨n, x, rfl⟩ := mem_regsFrom hc; rfl
 
 include hw hd in
-theorem cols_orientation (hexpr : hitPolicyOfText (t.exprs.headD []) = none)
-    (hlane : parseUsize (trim (if t.outputs.length = 1 ∨ t.hasLabelRow = true then t.labelText
-      else t.names.headD [])) = none) :
+theorem cols_orientation :
     recognizeOrientation ⟨nm, planeCols ids d t⟩ =
       ok ⟨t.hitPolicy, .ruleAsColumn, t.rules.length⟩ := by
-  simp only [recognizeOrientation, cols_hp ids d t nm hw hd hexpr, cols_rn ids d t nm hw hd hlane,
+  simp only [recognizeOrientation, cols_hp ids d t nm hw hd, cols_rn ids d t nm hw hd,
     cols_no_horzX ids d t nm]
   cases (Plane.verticalDoubleCrossing ⟨nm, planeCols ids d t⟩).isSome <;> simp
 
@@ -519,16 +568,13 @@ theorem planeCols_pivot :
 
 include hw hids hd in
 /-- Round trip, rules as columns. -/
-theorem recognizePlane_cols (ho : t.orientation = .ruleAsColumn) (hnm : nm = t.infoName)
-    (hexpr : hitPolicyOfText (t.exprs.headD []) = none)
-    (hlane : parseUsize (trim (if t.outputs.length = 1 ∨ t.hasLabelRow = true then t.labelText
-      else t.names.headD [])) = none) :
+theorem recognizePlane_cols (ho : t.orientation = .ruleAsColumn) (hnm : nm = t.infoName) :
     recognizePlane ⟨nm, planeCols ids d t⟩ = ok t := by
   subst hnm
-  have h1 := cols_orientation ids d t t.infoName hw hd hexpr hlane
+  have h1 := cols_orientation ids d t t.infoName hw hd
   have h2 := planeCols_pivot ids d t t.infoName hw hd
   have h3 := horz_bodyH ids d t t.infoName hw hids
-  have h4 := buildTable_horzOf t hw ⟨t.infoName, bodyH ids d t⟩
+  have h4 := buildTable_horzOf d t hw hd.inBlanks hd.outBlanks ⟨t.infoName, bodyH ids d t⟩
   rw [ho] at h4
   simp only [recognizePlane, recognizeComponents, h1, Outcome.ok_bind, h2, h3]
   exact h4
